@@ -38,11 +38,11 @@ func recvOrStop[T any](label string, ch <-chan T, stop <-chan struct{}) (v T, ok
 }
 
 type c19Sched struct {
-	Name   string   `json:"name"`
-	Notes  []Change `json:"notifications"`
-	MaskA  Change   `json:"mask_a"`
-	MaskB  Change   `json:"mask_b"`
-	Fail   bool     `json:"watch_fails"`
+	Name  string   `json:"name"`
+	Notes []Change `json:"notifications"`
+	MaskA Change   `json:"mask_a"`
+	MaskB Change   `json:"mask_b"`
+	Fail  bool     `json:"watch_fails"`
 }
 
 var c19Scheds = []c19Sched{
